@@ -58,7 +58,7 @@ func main() {
 		debug.SetCrashOutput(f, debug.CrashOptions{})
 	}
 
-	debug.SetTraceback("all")
+	debug.SetTraceback("crash")
 
 	evOut = bufio.NewWriter(os.NewFile(proto.FdEvent, "events"))
 	gateIn = bufio.NewReader(os.NewFile(proto.FdGate, "gate"))
